@@ -402,19 +402,20 @@ def ref_pvalues(test, b, par=None):
         cur[x] += 1
     cycles.append(cur)
     J = len(cycles)
+    ms, mc, mv = par if isinstance(par, (list, tuple)) else (4, 5, 9)     # SP 800-22: states -4..4, counts 0..5, variant states -9..9
     if J >= 500:
-      for x in list(range(-4, 0)) + list(range(1, 5)):
-        v = [0] * 6
+      for x in list(range(-ms, 0)) + list(range(1, ms + 1)):
+        v = [0] * (mc + 1)
         for c in cycles:
-          v[min(5, c[x])] += 1
+          v[min(mc, c[x])] += 1
         t = 1 / (2 * abs(x))
-        pi = [1 - t] + [t * t * (1 - t) ** (k - 1) for k in range(1, 5)] + [t * (1 - t) ** 4]
-        chi = sum((v[k] - J * pi[k]) ** 2 / (J * pi[k]) for k in range(6))
-        out['random excursions %d' % x] = igamc(5 / 2, chi / 2)
+        pi = [1 - t] + [t * t * (1 - t) ** (k - 1) for k in range(1, mc)] + [t * (1 - t) ** (mc - 1)]
+        chi = sum((v[k] - J * pi[k]) ** 2 / (J * pi[k]) for k in range(mc + 1))
+        out['random excursions %d' % x] = igamc(mc / 2, chi / 2)
       tot = collections.Counter()
       for c in cycles:
         tot.update(c)
-      for x in list(range(-9, 0)) + list(range(1, 10)):
+      for x in list(range(-mv, 0)) + list(range(1, mv + 1)):
         out['random excursions variant %d' % x] = erfc(abs(tot[x] - J) / math.sqrt(2 * J * (4 * abs(x) - 2)))
     return out
   return None
@@ -463,6 +464,8 @@ def call_test(ns, test, v, n, par):
   if test == 'BinaryMatrixRank' and isinstance(par, (list, tuple)):
     return ns.BinaryMatrixRank(v, n, par[0], par[1], par[2], False)
   fn = getattr(ns, test)
+  if test == 'RandomWalk' and isinstance(par, (list, tuple)):
+    return fn(v, n, par[0], par[1], par[2])
   if test == 'LinearComplexity':
     return fn(v, n, par)
   if test in ('Serial', 'ApproximateEntropy') and par:
@@ -484,6 +487,8 @@ def stat_record(ns, sid, test, b, par=0, with_ref=True):
   n = len(b)
   v = val(b)
   args = {'test': test, 'n': n, 'par': par if not isinstance(par, (list, tuple)) else 0}
+  if test == 'RandomWalk' and isinstance(par, (list, tuple)):
+    args['states'] = list(par)
   if n <= 4096:
     args['bits'] = b
   rec = {'sid': sid, 'ev': 'stat', 'args': args, 'obs': {}, 'raised': 'none'}
@@ -506,7 +511,7 @@ def stat_record(ns, sid, test, b, par=0, with_ref=True):
         mm = max(2, min(22, n.bit_length() - 4))
       if test == 'ApproximateEntropy' and not par:
         mm = max(2, n.bit_length() - 7) if n < 2 ** 16 else n.bit_length() - 8 if n < 2 ** 20 else n.bit_length() - 9
-      ref = ref_pvalues(test, b, par if test in ('BinaryMatrixRank', 'OverlappingTemplateMatching') else mm)
+      ref = ref_pvalues(test, b, par if test in ('BinaryMatrixRank', 'OverlappingTemplateMatching', 'RandomWalk') else mm)
       if ref is not None:
         ref = {k: x for k, x in ref.items() if x is not None}
         if not set(ref) <= set(pv):
@@ -727,6 +732,20 @@ def table_records():
       want.append(1 - sum(want))
       ok = len(got) == k_ + 1 and all(abs(g - w) <= 1.0001e-8 for g, w in zip(got, want))
       recs.append(rec('rank-%dx%d-k%d' % (r_, c_, k_), ok, {'code': got, 'exact': want}))
+    # Maurer's table (expected value and variance of log2 of the block distance) from its defining series, to the printed digits
+    import numpy
+    for L in range(1, 17):
+      # direct summation: the terms decay like (1 - 2^-L)^i; 64 * 2^L terms leave a tail below 1e-25
+      i_ = numpy.arange(1, 64 * 2 ** L + 1, dtype=numpy.longdouble)
+      w_ = numpy.exp((i_ - 1) * numpy.log1p(-numpy.longdouble(2.0) ** (-L)))
+      lg = numpy.log2(i_)
+      e1 = float(numpy.sum(w_ * lg)) / 2 ** L
+      e2 = float(numpy.sum(w_ * lg * lg)) / 2 ** L
+      mean_code, std_code = ns.UniversalDistribution(L, 1000)
+      c_ = 0.7 - 0.8 / L + (4 + 32 / L) * (1000 ** (-3 / L) / 15)
+      var_code = (std_code / c_) ** 2 * 1000
+      ok = abs(mean_code - float(e1)) <= 1.5e-6 and abs(var_code - float(e2 - e1 * e1)) <= 1.1e-3
+      recs.append(rec('universal-L%d' % L, ok, {'code': [mean_code, var_code], 'exact': [float(e1), float(e2 - e1 * e1)]}))
     # the survival function embedded in the extended suite, to its six printed digits
     from paranoid_crypto.lib.randomness_tests import extended_nist_suite as ens
     tab = [float(x) for x in ens.ASYMPTOTIC_RANK_SF]
@@ -771,6 +790,15 @@ def run(ctx):
           65535, 65536, 2 ** 16 + 1]
   if not ctx.quick:
     grid += [749999, 750000, 387839, 387840, 2 ** 20 - 1, 2 ** 20, 102399, 102400, 204800]
+  # RandomWalk with optional state bounds (more states than NIST's, more in the plain test than in the variant, other count caps)
+  for n in ([200000] if ctx.quick else [200000, 1000000]):
+    b = None
+    for _ in range(200):          # a string whose walk returns to zero at least 500 times (otherwise the excursion tests are skipped)
+      b = strings(rng, n)['random']
+      if int_stats('RandomWalk', b)['J'] >= 520:
+        break
+    for st in ((12, 5, 9), (6, 5, 3), (2, 5, 9), (4, 3, 9), (4, 7, 2), (1, 5, 1)):
+      jobs.append(('stat', ('w-RandomWalk-%d-%s' % (n, '.'.join(map(str, st))), 'RandomWalk', b, st, True)))
   # Universal on both sides of the first block-length thresholds of SP 800-22 2.9.7
   for n in ([387840, 904959, 904960] if ctx.quick else [387840, 904959, 904960, 2068479, 2068480, 1000000]):
     jobs.append(('stat', ('u-Universal-%d-random' % n, 'Universal', strings(rng, n)['random'], 0, True)))
